@@ -18,19 +18,84 @@ const (
 	siteWG
 	siteMap
 	siteCond
+	sitePool
 )
 
 func init() {
 	simrt.RegisterSites(map[int]string{
 		siteLock: "sync.Lock", siteRLock: "sync.RLock", siteUnlock: "sync.Unlock", siteOnce: "sync.Once.Do",
-		siteWG: "sync.WaitGroup", siteMap: "sync.Map", siteCond: "sync.Cond",
+		siteWG: "sync.WaitGroup", siteMap: "sync.Map", siteCond: "sync.Cond", sitePool: "sync.Pool",
 	})
 }
 
 type (
-	Pool   = sync.Pool
 	Locker = sync.Locker
 )
+
+// Pool replaces sync.Pool: one shared LIFO free list instead of per-P caches that the garbage collector empties.
+// Which object a Get returns is then a function of the schedule alone (replayable), and reuse is maximal, so stale
+// state in a recycled object and use after Put show reliably. There is a scheduling point before Get and Put and
+// one more after Put (an object published before its owner is done with it is only observable there).
+// Pools are emptied at the start of every simulation (ResetPools), so a run does not depend on the runs before it.
+type Pool struct {
+	New func() any
+
+	mu   sync.Mutex
+	free []any
+	reg  bool
+}
+
+var (
+	poolsMu sync.Mutex
+	pools   []*Pool
+)
+
+func (p *Pool) Get() any {
+	simrt.Yield(sitePool)
+	p.mu.Lock()
+	var x any
+	if n := len(p.free); n > 0 {
+		x = p.free[n-1]
+		p.free[n-1] = nil
+		p.free = p.free[:n-1]
+	}
+	p.mu.Unlock()
+	if x == nil && p.New != nil {
+		x = p.New()
+	}
+	return x
+}
+
+func (p *Pool) Put(x any) {
+	if x == nil {
+		return
+	}
+	simrt.Yield(sitePool)
+	p.mu.Lock()
+	if !p.reg {
+		p.reg = true
+		poolsMu.Lock()
+		pools = append(pools, p)
+		poolsMu.Unlock()
+	}
+	p.free = append(p.free, x)
+	p.mu.Unlock()
+	simrt.Yield(sitePool)
+}
+
+// ResetPools empties every pool that has been used so far.
+func ResetPools() {
+	poolsMu.Lock()
+	ps := pools
+	pools = nil
+	poolsMu.Unlock()
+	for _, p := range ps {
+		p.mu.Lock()
+		p.free = nil
+		p.reg = false
+		p.mu.Unlock()
+	}
+}
 
 type Mutex struct {
 	mu      sync.Mutex
